@@ -7,9 +7,10 @@ state is a *gate*: the actor parks there until
 the scheduler grants it one step.  A schedule is a list of tokens
 
     main out err stdin timer            one step of that thread
-    wo we co ce x<rc> int fo fe         environment: write next stdout/stderr chunk, close a pipe,
+    wo we co ce x<rc> int fo fe bo be   environment: write next stdout/stderr chunk, close a pipe,
                                         exit with status, raise KeyboardInterrupt in the wait loop,
-                                        make the next stdout/stderr read raise
+                                        make the next stdout/stderr read raise (fo/fe: an Exception,
+                                        bo/be: a BaseException that is not an Exception)
 
 which is also what the Lean model `Inv.run` consumes (Driver/Runner.lean), so both sides execute
 the same word.  run/_run_body/_finish/wait/_handle_output/read_proc_output/handle_stdin/
@@ -42,6 +43,10 @@ class Abort(BaseException):
 
 class InjectedFault(Exception):
     pass
+
+
+class InjectedExit(SystemExit):
+    """a worker dying of something that is not an `Exception` (e.g. a stream calling sys.exit())"""
 
 
 class Sched:
@@ -155,7 +160,9 @@ class Env:
         elif tok == "int":
             self.intr = True
         elif tok in ("fo", "fe"):
-            self.fault["out" if tok == "fo" else "err"] = True
+            self.fault["out" if tok == "fo" else "err"] = "exc"
+        elif tok in ("bo", "be"):
+            self.fault["out" if tok == "bo" else "err"] = "base"
 
 
 def make_classes(sched, env):
@@ -259,7 +266,7 @@ def make_classes(sched, env):
             while True:
                 sched.gate(s, "read")
                 if env.fault[s]:
-                    raise InjectedFault(s)
+                    raise (InjectedExit(s) if env.fault[s] == "base" else InjectedFault(s))
                 if env.buf[s]:
                     c = env.buf[s][0]
                     if len(c) <= n:
